@@ -23,7 +23,10 @@ func cmdDomains(args []string) int {
 	// one-byte-off neighbours of the three types the rules single out, at every byte position
 	neighbours := [][]byte{{0, 0, 0, 1}, {0, 1, 0, 0}, {1, 0, 1, 0}, {4, 0, 1, 0}, {4, 1, 0, 0}, {0, 0, 0, 0x80}, {0xff, 0xff, 0xff, 0xff}}
 	adminLists := [][]string{{}, {"10.0.0.1"}, {"10.0.0.1", "10.0.0.7", "192.168.1.1"}, {"2001:db8::1", "10.0.0.1"}}
-	sources := []string{"", "10.0.0.1", "10.0.0.7", "10.0.0.9", "2001:db8::1", "2001:db8::2", "2001:db8:ffff:1::99"}
+	sources := []string{"", "10.0.0.1", "10.0.0.7", "10.0.0.9", "2001:db8::1", "2001:db8::2", "2001:db8:ffff:1::99",
+		// unlisted addresses whose text ends with, starts with or embeds a listed one (used with the exit type only)
+		"110.0.0.1", "210.0.0.7", "10.0.0.11", "::ffff:10.0.0.1", "10.0.0.1:443"}
+	const plainSources = 7
 	rounds := 2
 	if cf.tier == "thorough" {
 		rounds = 12
@@ -50,6 +53,9 @@ func cmdDomains(args []string) int {
 			}
 			for pi, pre := range roundPrefixes {
 				for si, src := range sources {
+					if si >= plainSources && !bytes.Equal(pre, domExit) {
+						continue
+					}
 					if pi >= len(prefixes) && (si+pi+li)%3 != 0 {
 						continue // the neighbours with a third of the source addresses each
 					}
